@@ -148,6 +148,12 @@ svx_read_header	(SF_PRIVATE *psf)
 	while (! done)
 	{	psf_binheader_readf (psf, "Em4", &marker, &chunk_size) ;
 
+		if (marker == 0)
+		{	sf_count_t pos = psf_ftell (psf) ;
+			psf_log_printf (psf, "Have 0 marker at position %D (0x%x).\n", pos, pos) ;
+			break ;
+			} ;
+
 		switch (marker)
 		{	case FORM_MARKER :
 					if (parsestage)
